@@ -685,6 +685,30 @@ func verifAssume(cond bool) {}
 //@   ensures [C20] @wraps istype(b.mux.reqCmdHandlers[old(len(b.mux.reqCmdHandlers))], *requestCommandHandler) && b.mux.reqCmdHandlers[old(len(b.mux.reqCmdHandlers))].(*requestCommandHandler).predicate != nil && b.mux.reqCmdHandlers[old(len(b.mux.reqCmdHandlers))].(*requestCommandHandler).handlerFunc != nil
 //@   ensures [C20] @orderkept forall k : 0 <= k && k < old(len(b.mux.reqCmdHandlers)) ==> b.mux.reqCmdHandlers[k] == old(b.mux.reqCmdHandlers[k])
 
+// Every builder owns its configuration and its mux: two builders (two servers in
+// one process) never share the option lists, the scheme list or the callbacks
+// that handleChannel reads for each connection (C03: "a scheme the server
+// offered", "the configured authentication callback"; C09/C10: the configured
+// policy; C20: the handler table).
+//@ func NewServerConfig :: () (result)
+//@   props C03 C09 C10 C20
+//@   trusted reads the host name and the CPU count; only the freshness of its result is used
+//@   modifies nothing
+//@   ensures result != nil && fresh(result)
+//@ func NewServerBuilder :: () (result)
+//@   props C03 C09 C10 C20
+//@   modifies nothing
+//@   ensures [C03,C09,C10,C20] @ownstate result != nil && fresh(result) && result.config != nil && fresh(result.config) && result.mux != nil && fresh(result.mux) && !sameobj(result.config, result)
+//@ func NewClientConfig :: () (result)
+//@   props C08 C09 C20
+//@   trusted reads the host name; only the freshness of its result is used
+//@   modifies nothing
+//@   ensures result != nil && fresh(result)
+//@ func NewClientBuilder :: () (result)
+//@   props C08 C09 C20
+//@   modifies nothing
+//@   ensures [C08,C09,C20] @ownstate result != nil && fresh(result) && result.config != nil && fresh(result.config) && result.mux != nil && fresh(result.mux)
+
 // The negotiation policy a server is built with is exactly the one the application
 // configured (C09/C10): the option setters replace the list with the caller's, they
 // do not merge it with the defaults of NewServerConfig (which include `none`).
